@@ -1,0 +1,37 @@
+//go:build verif
+
+package results
+
+// Machine-checked contracts for package results (read by /verif/govc; this
+// file contains comments only and is compiled only with build tag verif).
+//
+//@ // C19: the tool sorts the collected results before printing them. The
+//@ // goroutines of the backend append results in an order that depends on
+//@ // scheduling, so the printed order is independent of the -tasks level only if
+//@ // Less is a strict total order on everything that is printed.
+//@ spec ltLessV(a LicenseType, b LicenseType) bool = ite(a.Confidence > b.Confidence, true, ite(a.Confidence < b.Confidence, false, ite(a.Filename < b.Filename, true, ite(a.Filename > b.Filename, false, ite(a.EndLine != b.EndLine, a.EndLine < b.EndLine, ite(a.StartLine != b.StartLine, a.StartLine < b.StartLine, ite(a.Name != b.Name, a.Name < b.Name, ite(a.MatchType != b.MatchType, a.MatchType < b.MatchType, a.Variant < b.Variant))))))))
+//@ spec ltLess(a *LicenseType, b *LicenseType) bool = ltLessV(*a, *b)
+//@
+//@ prove LicenseTypes-Less-strict-total-order
+//@   arith bv
+//@   claim forall a LicenseType :: !isNaN(a.Confidence) ==> !ltLessV(a, a)
+//@   claim forall a LicenseType, b LicenseType :: !isNaN(a.Confidence) && !isNaN(b.Confidence) && ltLessV(a, b) ==> !ltLessV(b, a)
+//@   claim forall a LicenseType, b LicenseType, c LicenseType :: !isNaN(a.Confidence) && !isNaN(b.Confidence) && !isNaN(c.Confidence) && ltLessV(a, b) && ltLessV(b, c) ==> ltLessV(a, c)
+//@   claim forall a LicenseType, b LicenseType :: !isNaN(a.Confidence) && !isNaN(b.Confidence) && !ltLessV(a, b) && !ltLessV(b, a) ==> a.Filename == b.Filename && a.Name == b.Name && a.MatchType == b.MatchType && a.Variant == b.Variant && a.Confidence == b.Confidence && a.StartLine == b.StartLine && a.EndLine == b.EndLine
+//@   props C19
+//@
+//@ func (LicenseTypes).Len
+//@   ensures result == len(lt)
+//@   modifies nothing
+//@   props C19
+//@ func (LicenseTypes).Swap
+//@   requires 0 <= i && i < len(lt) && 0 <= j && j < len(lt)
+//@   ensures lt[i] == old(lt[j]) && lt[j] == old(lt[i])
+//@   ensures forall k int :: 0 <= k && k < len(lt) && k != i && k != j ==> lt[k] == old(lt[k])
+//@   modifies elems(lt)
+//@   props C19
+//@ func (LicenseTypes).Less
+//@   requires 0 <= i && i < len(lt) && 0 <= j && j < len(lt) && lt[i] != nil && lt[j] != nil
+//@   ensures result == ltLess(lt[i], lt[j])
+//@   modifies nothing
+//@   props C19
